@@ -406,6 +406,9 @@ func (fv *FV) fieldComp(st *types.Named, f *types.Var) (key, sort string) {
 	case *types.Slice:
 		fv.compKind[key] = "slice"
 	}
+	if isOpaqueStruct(f.Type()) {
+		fv.compKind[key] = "emb"
+	}
 	return
 }
 
@@ -469,6 +472,10 @@ func (fv *FV) wfAxioms(key, c, alloc string) {
 	}
 	if fv.compKind[key] == "ptr" {
 		fv.axioms = append(fv.axioms, fmt.Sprintf("(forall ((r Int)) (! (select %s (select %s r)) :pattern ((select %s r))))", alloc, c, c))
+	}
+	if fv.compKind[key] == "emb" {
+		// an embedded library object always exists
+		fv.axioms = append(fv.axioms, fmt.Sprintf("(forall ((r Int)) (! (> (select %s r) 0) :pattern ((select %s r))))", c, c))
 	}
 	if fv.compKind[key] == "refelems" {
 		fv.axioms = append(fv.axioms, fmt.Sprintf("(forall ((r Int) (x Int)) (! (select %s (select (select %s r) x)) :pattern ((select (select %s r) x))))", alloc, c, c))
